@@ -1,59 +1,586 @@
+// c15 — stored key material round-trips; malformed material is refused.
+//
+// Part 1 (engine D): every result type is encoded, restored, compared with the original through
+// independent views, re-encoded and used in later protocol runs.
+// Part 2 (engine C): every node of the valid encoding x structural operator menu, semantic
+// rule-breakers, every proper prefix, single-bit flips, seeded random corruptions and a list of
+// garbage inputs.  Oracle: restore returns an error, or an object that the independent validity
+// checker (rules.go) accepts and that is not empty; never a panic.
 package main
 
 import (
 	"bytes"
+	"encoding/hex"
 	"fmt"
+	"os"
+	"sort"
+	"strings"
 	"time"
 
-	"github.com/fxamacker/cbor/v2"
 	"github.com/taurusgroup/multi-party-sig/internal/zzverif/drv"
+	"github.com/taurusgroup/multi-party-sig/internal/zzverif/faults"
 	"github.com/taurusgroup/multi-party-sig/internal/zzverif/kmat"
 	"github.com/taurusgroup/multi-party-sig/internal/zzverif/sess"
 	"github.com/taurusgroup/multi-party-sig/internal/zzverif/vkit"
-	"github.com/taurusgroup/multi-party-sig/pkg/math/curve"
+	"github.com/taurusgroup/multi-party-sig/pkg/ecdsa"
+	"github.com/taurusgroup/multi-party-sig/pkg/party"
 	"github.com/taurusgroup/multi-party-sig/pkg/protocol"
-	"github.com/taurusgroup/multi-party-sig/protocols/cmp"
-	"github.com/taurusgroup/multi-party-sig/protocols/frost"
 )
 
-func main() {
-	_ = vkit.Init("C15")
-	drv.Install()
-	fk, err := kmat.Frost(3, 1)
+type kase struct {
+	Class    string `json:"class"` // roundtrip | structural | semantic | prefix | bitflip | random | garbage
+	Name     string `json:"name,omitempty"`
+	Kind     string `json:"kind,omitempty"`
+	Inst     string `json:"inst,omitempty"`
+	Path     string `json:"path,omitempty"`
+	Op       string `json:"op,omitempty"`
+	Pos      int    `json:"pos,omitempty"`
+	Rule     string `json:"aimed_at_rule,omitempty"`
+	InputHex string `json:"input_hex,omitempty"`
+}
+
+func (k kase) key() string {
+	return fmt.Sprintf("%s|%s|%s|%s|%s|%d", k.Kind, k.Inst, k.Class, k.Path, k.Op, k.Pos)
+}
+
+type verdict struct {
+	outcome string // error | accepted-valid | accepted-identical | violation | harness
+	fs      []finding
+	err     string
+}
+
+// judge is the oracle of part 2.
+func judge(k *kind, valid []byte, input []byte) verdict {
+	var obj interface{}
+	var err error
+	if panicked, msg, frame := vkit.Try(func() { obj, err = k.restore(input) }); panicked {
+		return verdict{outcome: "violation", fs: []finding{{panicSig(k.name, frame, msg), "restore panics: " + msg + " in " + frame}}}
+	}
 	if err != nil {
-		panic(err)
+		return verdict{outcome: "error", err: err.Error()}
 	}
-	b0, _ := cbor.Marshal(fk["a"])
-	diff := 0
-	for i := 0; i < 50; i++ {
-		b, _ := cbor.Marshal(fk["a"])
-		if !bytes.Equal(b, b0) {
-			diff++
+	var empty bool
+	var broken []string
+	if panicked, msg, frame := vkit.Try(func() {
+		empty = k.empty(obj)
+		if !empty {
+			broken = k.rules(obj, input)
+		}
+	}); panicked {
+		return verdict{outcome: "harness", err: "the validity checker panics on an accepted object: " + msg + " in " + frame}
+	}
+	if empty {
+		return verdict{outcome: "violation", fs: []finding{{"silently-empty|" + k.name, "restore returns no error and leaves the object empty (as created by the Empty* constructor)"}}}
+	}
+	if len(broken) > 0 {
+		var fs []finding
+		for _, b := range broken {
+			fs = append(fs, finding{"restore-accepts|" + k.name + "|" + b, "restore returns no error for an object that breaks the rule: " + b + " (all rules broken: " + strings.Join(broken, "; ") + ")"})
+		}
+		return verdict{outcome: "violation", fs: fs}
+	}
+	out := "accepted-valid"
+	if valid != nil {
+		var enc []byte
+		var eerr error
+		if panicked, _, _ := vkit.Try(func() { enc, eerr = k.encode(obj) }); !panicked && eerr == nil {
+			if c, ok := canonBytes(enc); ok && bytes.Equal(c, valid) {
+				out = "accepted-identical"
+			}
 		}
 	}
-	fmt.Println("frost re-marshal differs:", diff, "of 50")
-	for _, in := range [][]byte{{0xf6}, {0xa0}, {}, {0x00}} {
-		c := frost.EmptyConfig(curve.Secp256k1{})
-		pan, msg, fr := vkit.Try(func() { err = cbor.Unmarshal(in, c) })
-		fmt.Printf("frost %x -> err=%v panic=%v %s %s id=%q\n", in, err, pan, msg, fr, c.ID)
-		m := new(protocol.Message)
-		fmt.Printf("msg %x -> err=%v %+v\n", in, m.UnmarshalBinary(in), m)
+	return verdict{outcome: out}
+}
+
+// ---- instances ------------------------------------------------------------------------------------
+
+func buildInstances() ([]*instance, error) {
+	var out []*instance
+	add := func(k *kind, label string, n, t int, id party.ID, obj interface{}) error {
+		in, err := newInstance(k, label, n, t, id, obj)
+		if err != nil {
+			return err
+		}
+		in.ids = kmat.IDs[:n]
+		out = append(out, in)
+		return nil
 	}
+	for _, nt := range [][2]int{{2, 1}, {3, 1}, {3, 2}} {
+		n, t := nt[0], nt[1]
+		fk, err := kmat.Frost(n, t)
+		if err != nil {
+			return nil, err
+		}
+		tk, err := kmat.Taproot(n, t)
+		if err != nil {
+			return nil, err
+		}
+		for _, id := range kmat.IDs[:n] {
+			if err := add(kinds["frost.Config"], fmt.Sprintf("n%dt%d/%s", n, t, id), n, t, id, fk[id]); err != nil {
+				return nil, err
+			}
+		}
+		for _, id := range kmat.IDs[:n] {
+			if err := add(kinds["frost.TaprootConfig"], fmt.Sprintf("n%dt%d/%s", n, t, id), n, t, id, tk[id]); err != nil {
+				return nil, err
+			}
+		}
+	}
+	dk, err := kmat.Doerner()
+	if err != nil {
+		return nil, err
+	}
+	if err := add(kinds["doerner.ConfigReceiver"], "recv", 2, 1, "a", dk.R); err != nil {
+		return nil, err
+	}
+	if err := add(kinds["doerner.ConfigSender"], "send", 2, 1, "b", dk.S); err != nil {
+		return nil, err
+	}
+	o := sess.Run(sess.DoernerSign(dk.R, dk.S, "a", "b", msg32), *vkit.Seed, "c15-sig")
+	sig, ok := o.Results["a"].(*ecdsa.Signature)
+	if !ok {
+		return nil, fmt.Errorf("doerner sign failed: %v %s", o.Errors, o.Panic)
+	}
+	if err := add(kinds["ecdsa.Signature"], "doerner", 2, 1, "a", sig); err != nil {
+		return nil, err
+	}
+	// wire messages: a broadcast and a p2p message of FROST keygen, and a message that carries a broadcast hash
+	ko := sess.Run(sess.FrostKeygen(kmat.IDs[:3], 1, false), *vkit.Seed, "c15-msg")
+	var mb, mp, mv *protocol.Message
+	for _, m := range ko.Net.Parties["a"].Sent {
+		switch {
+		case m.Broadcast && mb == nil:
+			mb = m
+		case m.To != "" && mp == nil:
+			mp = m
+		}
+		if len(m.BroadcastVerification) > 0 && mv == nil && m != mp {
+			mv = m
+		}
+	}
+	for _, x := range []struct {
+		l string
+		m *protocol.Message
+	}{{"frost-keygen/broadcast", mb}, {"frost-keygen/p2p", mp}, {"frost-keygen/with-broadcast-hash", mv}} {
+		if x.m == nil {
+			continue
+		}
+		if err := add(kinds["protocol.Message"], x.l, 3, 1, "a", x.m); err != nil {
+			return nil, err
+		}
+	}
+	nts := [][2]int{{2, 1}}
+	if vkit.Thorough() {
+		nts = append(nts, [2]int{3, 1})
+	}
+	for _, nt := range nts {
+		n, t := nt[0], nt[1]
+		w := getCMP(n, t)
+		if w.err != nil {
+			return nil, w.err
+		}
+		ids := []party.ID{"a"}
+		if vkit.Thorough() && n == 2 {
+			ids = append(ids, "b")
+		}
+		for _, id := range ids {
+			if err := add(kinds["cmp.Config"], fmt.Sprintf("n%dt%d/%s", n, t, id), n, t, id, w.orig[id]); err != nil {
+				return nil, err
+			}
+		}
+		if n == 2 {
+			if err := add(kinds["cmp.Config(cbor)"], fmt.Sprintf("n%dt%d/a", n, t), n, t, "a", w.orig["a"]); err != nil {
+				return nil, err
+			}
+		}
+		pre, err := w.presigs()
+		if err != nil {
+			return nil, err
+		}
+		if err := add(kinds["ecdsa.PreSignature"], fmt.Sprintf("n%dt%d/a", n, t), n, t, "a", pre["a"]); err != nil {
+			return nil, err
+		}
+	}
+	return out, nil
+}
+
+// ---- the corruption catalogue of one instance -----------------------------------------------------------
+
+type emitFn func(class, path, op string, pos int, rule string, mk func() []byte)
+
+func sortedOps(m map[string]interface{}) []string {
+	names := make([]string, 0, len(m))
+	for k := range m {
+		names = append(names, k)
+	}
+	sort.Strings(names)
+	return names
+}
+
+var garbage = [][]byte{{}, {0xf6}, {0xf7}, {0xa0}, {0x80}, {0x40}, {0x60}, {0x00}, {0x20}, {0xf4}, {0xf5}, {0xff}, {0xbf, 0xff}, {0x9f, 0xff}, {0x5f, 0xff}, {0xa1}, {0xa1, 0x60}, {0xc0, 0x00}, {0xfb}, {0x1b}, {0x58}, {0x41, 0xa0}, {0x42, 0xa0, 0xf6}}
+
+func catalogue(in *instance, emit emitFn) {
+	t := in.tree
+	light := in.kind.wrapped && !vkit.Thorough()
+	// (a) structural menu at every node
+	for _, s := range t.sites() {
+		s := s
+		if light && s.Nested {
+			continue
+		}
+		node := faults.Node{Path: s.Inner, Val: s.Val}
+		if !s.Nested {
+			node.Path = s.Outer
+		}
+		ops := faults.StructuralOps(node, false)
+		for _, name := range sortedOps(ops) {
+			name, val := name, ops[name]
+			if name == "delete" {
+				emit("structural", s.Path(), name, 0, "", func() []byte {
+					b, ok := t.with(s, nil, true)
+					if !ok {
+						return nil
+					}
+					return b
+				})
+				continue
+			}
+			emit("structural", s.Path(), name, 0, "", func() []byte {
+				b, ok := t.with(s, val, false)
+				if !ok {
+					return nil
+				}
+				return b
+			})
+		}
+	}
+	// (b) semantic rule-breakers
+	ms := semanticMutants(in)
+	sort.SliceStable(ms, func(i, j int) bool {
+		if ms[i].Path != ms[j].Path {
+			return ms[i].Path < ms[j].Path
+		}
+		return ms[i].Op < ms[j].Op
+	})
+	for i, m := range ms {
+		if light && i%7 != 0 {
+			continue
+		}
+		emit("semantic", m.Path, m.Op, 0, m.Rule, m.make)
+	}
+	// (c) every proper prefix
+	stride := 1
+	if light {
+		stride = 16
+	}
+	for l := 0; l < len(in.valid); l++ {
+		if l%stride != 0 && l >= 16 {
+			continue
+		}
+		l := l
+		emit("prefix", "", "prefix", l, "", func() []byte { return append([]byte{}, in.valid[:l]...) })
+	}
+	// (d) single-bit flips: one bit per byte (quick), every bit (thorough)
+	for i := 0; i < len(in.valid); i++ {
+		if light && i >= 16 && i%64 != 0 {
+			continue
+		}
+		bits := []int{i % 8}
+		if vkit.Thorough() {
+			bits = []int{0, 1, 2, 3, 4, 5, 6, 7}
+		}
+		for _, b := range bits {
+			i, b := i, b
+			emit("bitflip", "", "bit", i*8+b, "", func() []byte {
+				m := append([]byte{}, in.valid...)
+				m[i] ^= 1 << uint(b)
+				return m
+			})
+		}
+	}
+	// (e) seeded random corruptions
+	k := 64
+	if in.kind.costly {
+		k = 32
+	}
+	if vkit.Thorough() {
+		k *= 8
+	}
+	if light {
+		k = 8
+	}
+	for j := 0; j < k; j++ {
+		j := j
+		emit("random", "", "random", j, "", func() []byte { return randomCorruption(in, j) })
+	}
+	// (f) garbage
+	for j, g := range garbage {
+		g := g
+		emit("garbage", "", fmt.Sprintf("%x", g), j, "", func() []byte { return append([]byte{}, g...) })
+	}
+	for j, l := range []int{16, len(in.valid)} {
+		l, j := l, j
+		emit("garbage", "", fmt.Sprintf("random-%d-bytes", l), len(garbage)+j, "", func() []byte {
+			b := make([]byte, l)
+			drv.NewDRBG("c15-garbage|"+in.name(), *vkit.Seed).Read(b)
+			return b
+		})
+	}
+}
+
+func randomCorruption(in *instance, j int) []byte {
+	r := drv.NewDRBG(fmt.Sprintf("c15-random|%s|%d", in.name(), j), *vkit.Seed)
+	var h [8]byte
+	r.Read(h[:])
+	n := len(in.valid)
+	off := (int(h[0])<<16 | int(h[1])<<8 | int(h[2])) % n
+	l := 1 + int(h[3])%16
+	if off+l > n {
+		l = n - off
+	}
+	rnd := make([]byte, l)
+	r.Read(rnd)
+	v := in.valid
+	switch h[4] % 4 {
+	case 0, 1: // overwrite a span
+		m := append([]byte{}, v...)
+		copy(m[off:], rnd)
+		return m
+	case 2: // insert
+		m := append([]byte{}, v[:off]...)
+		m = append(m, rnd...)
+		return append(m, v[off:]...)
+	default: // delete a span
+		m := append([]byte{}, v[:off]...)
+		return append(m, v[off+l:]...)
+	}
+}
+
+// ---- main ------------------------------------------------------------------------------------------------
+
+func main() {
+	res := vkit.Init("C15")
+	drv.Install()
+	drv.CallTimeout = 90 * time.Second
+	res.Rule = "part 1: one case = one result type x (n,t) x party, encoded with the documented encoder, restored into the Empty* value, compared with the original through independent views, re-encoded, and one signing / presign-online / wire session per choice of who uses restored material (each single party, all); part 2: one case = one corrupted encoding of one valid instance: (every node path incl. nested tables) x structural operator menu, semantic rule-breakers per validity rule, every proper prefix, single-bit flips (one per byte quick, all thorough), seeded random span corruptions, a garbage list; distinct = distinct (type, instance, class, path, operator, position)"
+	res.Assumptions = []string{
+		"restore = the documented way: cbor.Unmarshal into the Empty* value (cmp.Config: UnmarshalBinary and cbor; PreSignature: followed by Validate; protocol.Message: UnmarshalBinary)",
+		"the validity checker is intrinsic to the restored object (plus duplicate detection on the encoded party tables); a consistent table with one foreign party removed or a flipped bit inside a random-looking field is not detectable by any restore and is not demanded",
+		"sessions run in order with pool=nil under seeded per-party randomness",
+	}
+
+	var rp kase
+	if vkit.LoadReplay(&rp) {
+		os.Exit(replay(rp))
+	}
+
+	deadline := vkit.Deadline(100*time.Second, 22*time.Minute)
+	outcomes := map[string]int{}
+	acceptedBreakers := map[string]int{}
+	n := 0
+	next := func() bool { n++; return vkit.Mine(n) }
+	expired := func() bool { return !deadline.IsZero() && time.Now().After(deadline) }
+	report := func(fs []finding, k kase) (violated bool) {
+		for _, f := range fs {
+			if strings.HasPrefix(f.sig, "harness|") {
+				res.Hard(f.sig + ": " + f.detail)
+				continue
+			}
+			violated = true
+			res.Violate(f.sig, f.detail+"\ncase: "+k.describe(), k)
+		}
+		return
+	}
+
+	// the instances are needed by every shard (the catalogue is sharded by case index)
 	t0 := time.Now()
-	o := sess.Run(sess.CMPKeygen(kmat.IDs[:2], 1), 1, "kmat")
-	fmt.Println("cmp keygen", time.Since(t0), o.Errors, o.Panic)
-	c := o.Results["a"].(*cmp.Config)
-	b, _ := c.MarshalBinary()
-	t0 = time.Now()
-	for i := 0; i < 20; i++ {
-		if err := cmp.EmptyConfig(curve.Secp256k1{}).UnmarshalBinary(b); err != nil {
-			panic(err)
+	insts, err := buildInstances()
+	if err != nil {
+		res.Hard("cannot build the valid instances: " + err.Error())
+		res.Finish()
+		return
+	}
+	fmt.Fprintf(os.Stderr, "instances: %d (%.1fs)\n", len(insts), time.Since(t0).Seconds())
+
+	// part 1
+	rtCount := 0
+	cut := false
+	for _, c := range roundTripCases() {
+		if !vkit.Want(c.Name) {
+			continue
+		}
+		if !next() {
+			continue
+		}
+		if expired() {
+			cut = true
+			break
+		}
+		k := kase{Class: "roundtrip", Name: c.Name}
+		var fs []finding
+		if panicked, msg, frame := vkit.Try(func() { fs = c.run() }); panicked {
+			fs = []finding{{panicSig("roundtrip", frame, msg), c.Name + ": " + msg}}
+		}
+		res.Case(c.Name)
+		rtCount++
+		if report(fs, k) {
+			outcomes["roundtrip|violation"]++
+		} else {
+			outcomes["roundtrip|ok"]++
+		}
+		if rtCount%5 == 1 {
+			res.Sample(map[string]interface{}{"part": 1, "case": c.Name, "findings": len(fs)})
 		}
 	}
-	fmt.Println("cmp restore", time.Since(t0)/20)
-	for _, in := range [][]byte{{0xf6}, {0xa0}, {}} {
-		cc := cmp.EmptyConfig(curve.Secp256k1{})
-		pan, msg, fr := vkit.Try(func() { err = cc.UnmarshalBinary(in) })
-		fmt.Printf("cmp %x -> err=%v panic=%v %s %s\n", in, err, pan, msg, fr)
+
+	// part 2
+	for _, in := range insts {
+		if !vkit.Want(in.name()) || cut {
+			continue
+		}
+		in := in
+		per := 0
+		catalogue(in, func(class, path, op string, pos int, rule string, mk func() []byte) {
+			if !next() || cut {
+				return
+			}
+			if expired() {
+				cut = true
+				return
+			}
+			input := mk()
+			if input == nil {
+				return
+			}
+			k := kase{Class: class, Kind: in.kind.name, Inst: in.label, Path: path, Op: op, Pos: pos, Rule: rule}
+			v := judge(in.kind, in.valid, input)
+			res.Case(k.key())
+			per++
+			outcomes[in.kind.name+"|"+class+"|"+v.outcome]++
+			switch v.outcome {
+			case "harness":
+				res.Hard(v.err + " — " + k.describe())
+			case "violation":
+				k.InputHex = hex.EncodeToString(input)
+				report(v.fs, k)
+			case "accepted-valid", "accepted-identical":
+				if class == "semantic" && !isProbe(op) {
+					acceptedBreakers[fmt.Sprintf("%s: %s %s (aimed at: %s) -> %s", in.kind.name, faults.PathClass(path, in.ids), op, rule, v.outcome)]++
+				}
+			case "error":
+				if class == "semantic" && isProbe(op) {
+					k.InputHex = hex.EncodeToString(input)
+					res.Violate("restore-refuses|"+in.kind.name+"|"+op, "a legal variant of a valid encoding is refused: "+v.err+"\ncase: "+k.describe(), k)
+				}
+			}
+			if n%1499 == 0 {
+				res.Sample(map[string]interface{}{"part": 2, "type": in.kind.name, "instance": in.label, "class": class, "path": path, "op": op, "pos": pos, "outcome": v.outcome, "error": clipS(v.err)})
+			}
+		})
+		fmt.Fprintf(os.Stderr, "%-44s %6d bytes  cases(this shard)=%d\n", in.name(), len(in.valid), per)
 	}
+	if cut {
+		res.Exhaustive = false
+		res.Note("internal deadline reached: the remaining cases of this shard were not run")
+	}
+	oc := map[string]interface{}{}
+	for k, v := range outcomes {
+		oc[k] = v
+	}
+	res.Extra["outcomes_by_type_class"] = oc
+	ab := map[string]interface{}{}
+	for k, v := range acceptedBreakers {
+		ab[k] = v
+	}
+	res.Extra["rule_breakers_accepted_with_a_rule_valid_object"] = ab
+	res.Extra["wire_messages_round_tripped"] = wireMessages
+	res.Finish()
+}
+
+// panicSig: type + innermost repository frame + the kind of panic (different defects end in the same decode function).
+func panicSig(typ, frame, msg string) string {
+	m := strings.TrimPrefix(msg, "runtime error: ")
+	m = strings.TrimPrefix(m, "reflect: ")
+	if i := strings.IndexAny(m, "0123456789[("); i > 0 {
+		m = m[:i]
+	}
+	m = strings.TrimSpace(m)
+	if len(m) > 48 {
+		m = m[:48]
+	}
+	return "panic|" + typ + "|" + frame + "|" + m
+}
+
+func clipS(s string) string {
+	if len(s) > 120 {
+		return s[:120]
+	}
+	return s
+}
+
+func (k kase) describe() string {
+	if k.Class == "roundtrip" {
+		return k.Name
+	}
+	s := fmt.Sprintf("%s %s: %s", k.Kind, k.Inst, k.Class)
+	if k.Path != "" {
+		s += " at " + k.Path
+	}
+	if k.Op != "" {
+		s += " op " + k.Op
+	}
+	if k.Class == "prefix" || k.Class == "bitflip" || k.Class == "random" {
+		s += fmt.Sprintf(" #%d", k.Pos)
+	}
+	if k.Rule != "" {
+		s += " (aimed at: " + k.Rule + ")"
+	}
+	if k.InputHex != "" {
+		h := k.InputHex
+		if len(h) > 200 {
+			h = h[:200] + "…"
+		}
+		s += fmt.Sprintf("\ninput (%d bytes): %s", len(k.InputHex)/2, h)
+	}
+	return s
+}
+
+func replay(rp kase) int {
+	if rp.Class == "roundtrip" {
+		for _, c := range roundTripCases() {
+			if c.Name == rp.Name {
+				fs := c.run()
+				for _, f := range fs {
+					fmt.Println("VIOLATION", f.sig, "\n ", f.detail)
+				}
+				if len(fs) > 0 {
+					return 1
+				}
+				fmt.Println("ok:", c.Name)
+				return 0
+			}
+		}
+		fmt.Println("round-trip case not found:", rp.Name)
+		return 2
+	}
+	k, ok := kinds[rp.Kind]
+	if !ok {
+		fmt.Println("unknown type", rp.Kind)
+		return 2
+	}
+	input, err := hex.DecodeString(rp.InputHex)
+	if err != nil {
+		fmt.Println(err)
+		return 2
+	}
+	fmt.Println("case:", rp.describe())
+	v := judge(k, nil, input)
+	fmt.Println("outcome:", v.outcome, v.err)
+	for _, f := range v.fs {
+		fmt.Println("VIOLATION", f.sig, "\n ", f.detail)
+	}
+	if v.outcome == "violation" {
+		return 1
+	}
+	return 0
 }
